@@ -1,5 +1,6 @@
 """C01 - ELF file, section and program headers are decoded exactly as encoded."""
 import io
+import zlib
 
 from vf import usage, streams
 from vf.enc import elf as W
@@ -317,6 +318,29 @@ def run_case(ctx, case):
                 elif sec is not None:
                     ctx.fail('lookup|get_section_by_name|absent', 'name %r -> %r' % (nm, sec), case)
 
+    # --- a name look-up interrupted by a read error the caller catches (vf/streams.py FaultOnce) may be repeated: the repetition answers
+    # from the whole table
+    if nsec >= 3 and all_ok and valid and has_names and nsec <= 60 and zlib.crc32(data) % 3 == 0:
+        try:
+            fst = streams.FaultOnce(data)
+            ef2 = ELFFile(fst)
+            fst.arm(2 + zlib.crc32(data) // 3 % (3 * nsec))
+            try:
+                ef2.get_section_by_name(R['names'][nsec - 1])
+            except Exception:  # noqa
+                pass
+            fst.disarm()
+            if fst.faults:
+                ctx.count('transient-fault.lookup-interrupted')
+                for i in sorted(set(range(nsec)) - {0})[:12]:
+                    nm = R['names'][i]
+                    want = [k for k in range(nsec) if R['names'][k] == nm]
+                    got = ef2.get_section_index(nm)
+                    if got not in want or ef2.get_section_by_name(nm) is None:
+                        ctx.fail('lookup|repeated-after-a-failed-attempt', 'name %r is borne by section(s) %r; after a look-up that a read error interrupted get_section_index answers %r' % (nm, want, got), case)
+                        break
+        except Exception as e:  # noqa
+            ctx.fail_exc('lookup|repeated-after-a-failed-attempt', e, case)
     # --- the enumerations consumed step by step while the stream is moved and a nested enumeration runs between two steps
     if nsec and len(idxs) == nsec and all_ok and valid and has_names and nsec <= 60:
         try:
